@@ -11,6 +11,7 @@ arbitrary list of play-phase events.
 import IpcHub.Model.PullInst
 import IpcHub.Lemmas.Pull
 import IpcHub.Lemmas.PullRegistry
+import IpcHub.Lemmas.PullDual
 namespace IpcHub.Props.C20
 open IpcHub.Pull IpcHub.PullSpec
 
@@ -22,7 +23,8 @@ open IpcHub.Pull IpcHub.PullSpec
     loop and its deferred Release → Unregist → disconnect, newRequest's credential/session rules,
     disconnect, connect's dial timeout, the built-in NetTimeout / heart-beat values (the harness shortens
     them through the verif override; a read deadline is only set when NetTimeout > 0), the factory, and
-    the not-found answers of the requesters. -/
+    the not-found answers of the requesters, and media.Unregist reaching `s.Close()` whatever the registry
+    holds under the path (no return before it: `c20_pull_end_closes_stream`). -/
 theorem c20_source_facts :
     IpcHub.Gen.pullFactsUnknown = [] ∧
     IpcHub.Gen.openCalls = ["c.connect", "c.requestHandshake", "c.requestSDP", "c.requestSetup", "c.requestPlay"] ∧
@@ -67,7 +69,8 @@ theorem c20_source_facts :
     IpcHub.Gen.createConds = ["err != nil", "err != nil"] ∧
     IpcHub.Gen.describeNotFound = ["stream == nil", "not-found", "return"] ∧
     IpcHub.Gen.playNotFound = ["stream == nil", "not-found", "return"] ∧
-    IpcHub.Gen.httpFlvNotFound = ["stream == nil", "not-found", "return"] := by
+    IpcHub.Gen.httpFlvNotFound = ["stream == nil", "not-found", "return"] ∧
+    IpcHub.Gen.unregistClosesAlways = true := by
   decide
 
 /-- the regenerated facts are the ones the property needs -/
@@ -201,6 +204,49 @@ theorem c20_one_stream_lock_fact :
     IpcHub.Gen.getOrCreateTaskGuardC20 = ["r != nil", "psf.Can(r.URL)", "err == nil", "!r.KeepAlive"] ∧
     IpcHub.Gen.getOrCreateTaskArgs = "s, StreamNoConsumer" := by decide
 
+/-- **The end of a pull closes its stream whatever the registry holds** (the clean-up clause
+    "consumers of the stream are closed … nothing stays registered" for a stream that is, is no longer,
+    or never was the registered one).  With the source's Unregist (fact `unregistClosesAlways`), for
+    every registry state and every live stream i — registered, replaced by the other pull's stream
+    while it still had a consumer, or already removed — playStream's deferred Unregist leaves i not OK
+    and without consumers (both tables emptied: they are closed), not registered; every other stream
+    and every other stream's registration is untouched (the survivor stays registered). -/
+theorem c20_pull_end_closes_stream (st : IpcHub.Registry.State) (i : Nat) (s : IpcHub.Registry.Stream)
+    (h : st.streams[i]? = some s) (hok : s.status = .ok) :
+    let st' := IpcHub.PullDual.unregistF IpcHub.Gen.unregistClosesAlways st i
+    IpcHub.Registry.isOk st' i = false ∧ IpcHub.Registry.ccOf st' i = 0 ∧
+    IpcHub.Registry.load st'.reg s.path ≠ some i ∧
+    (∀ j, j ≠ i → st'.streams[j]? = st.streams[j]?) ∧
+    (∀ p j, j ≠ i → IpcHub.Registry.load st.reg p = some j → IpcHub.Registry.load st'.reg p = some j) :=
+  IpcHub.PullDual.unregistF_closes st i s h hok
+
+/-- **Two simultaneous first requests that both pulled, then every way the two pulls can end.**  For
+    every scenario — a consumer attached or not to the first-registered stream before the second pull
+    registers, a consumer or not on the second one, route with or without keepalive, either pull
+    ending first, each in any of the ways a pull ends (camera side: close / reset / silence / garbage /
+    truncated frame; server side: Stream.Close; idle: consumer leaves and the zero-consumers task
+    fires) — the model of the current source (registry of C05 with the regenerated facts, Unregist
+    with `unregistClosesAlways`) passes the specification of Spec/PullDual.lean at all three stages for
+    BOTH streams: consumers of an ended pull closed, its connection closed, its stream not OK and not
+    registered; exactly the survivor registered (or nothing); the surviving pull still served.
+    (The quantifier is this finite table of scenario kinds; the unbounded statement is
+    `c20_pull_end_closes_stream`.  Goroutine / counter leaks are observed, not modelled: `leak = false`.) -/
+theorem c20_dual_pulls_satisfy_spec (sc : IpcHub.PullDual.Scn) :
+    let s := IpcHub.PullDual.stages IpcHub.Gen.unregistClosesAlways IpcHub.Registry.genFacts sc
+    IpcHub.PullDualSpec.verdict sc s.1 s.2.1 s.2.2 false = .ok := by
+  obtain ⟨lc, wc, keep, lf, h1, h2⟩ := sc
+  cases lc <;> cases wc <;> cases keep <;> cases lf <;> cases h1 <;> cases h2 <;> decide
+
+/-- Why the fact is needed (seeded change C20d / C03d): with an Unregist that returns early when the
+    stream is not the registered one, a pulled stream that was replaced while it had a consumer stays
+    live with that consumer after its camera went away; the specification rejects it. -/
+theorem c20_guarded_unregist_counterexample :
+    let sc : IpcHub.PullDual.Scn := { lc := true, wc := true, keep := true, loserFirst := true, how1 := .camera, how2 := .camera }
+    let s := IpcHub.PullDual.stages false IpcHub.Registry.goodFacts sc
+    s.2.1.l.ok = true ∧ s.2.1.l.cc = 1 ∧ s.2.1.l.cl = false ∧ s.2.1.l.up = false ∧
+    IpcHub.PullDualSpec.verdict sc s.1 s.2.1 s.2.2 false = .consumerNotClosed :=
+  IpcHub.PullDual.unregistF_guarded_leaves_replaced_stream_open
+
 /-- Why the facts are needed — the behaviours of the code before the fixes, as theorems about the
     model with the old facts (witnesses: corpus/C20/handshake-silence.case, open-panic.case): without
     the handshake deadline a camera that accepts and then stays silent leaves the requester blocked for
@@ -269,5 +315,18 @@ example :
     let st0 : IpcHub.Registry.State := { streams := [s, s], reg := [], tasks := [], now := 0 }
     IpcHub.RegistryLts.allDone (IpcHub.RegistryLts.runSched true
       (IpcHub.RegistryLts.initC st0 [.regist 0, .regist 1]) IpcHub.RegistryLts.pauseSchedule) = true := by decide
+
+/-- `c20_pull_end_closes_stream`: its hypotheses are met by the replaced stream of two pulls, which is
+    live with one consumer while the other stream owns the path; `c20_dual_pulls_satisfy_spec`: in that
+    scenario the replaced stream is served on until its camera goes away, then closed -/
+example :
+    let sc : IpcHub.PullDual.Scn := { lc := true, wc := true, keep := false, loserFirst := true, how1 := .camera, how2 := .idle }
+    let y := IpcHub.PullDual.setup true sc
+    y.st.streams[0]? = some { IpcHub.PullDual.fresh with rtp := [1], seed := 1 } ∧
+    IpcHub.Registry.load y.st.reg IpcHub.PullDual.dpath = some 1 ∧
+    (IpcHub.PullDual.stages true IpcHub.Registry.goodFacts sc).1.l.sv = true ∧
+    (IpcHub.PullDual.stages true IpcHub.Registry.goodFacts sc).2.1.l.cl = true ∧
+    (IpcHub.PullDual.stages true IpcHub.Registry.goodFacts sc).2.1.reg = some 1 ∧
+    (IpcHub.PullDual.stages true IpcHub.Registry.goodFacts sc).2.2.reg = none := by decide
 
 end IpcHub.Props.C20
